@@ -75,12 +75,9 @@ class Hist(object):
         if tag:
             self.tags.add(tag)
         rs_before = L.conn(a).recordSize
-        if op[0] == 'ORequestAuth' and len(op) == 2:
-            op = ('ORequestAuth', op[1], op[1])       # (kind, wf as seen on the wire [for the model], setting used)
+        if op[0] == 'ORequestAuth' and len(op) == 3:   # (replay files written before a078a25)
+            op = ('ORequestAuth', op[2])
         o = L.do(a, op)
-        if op[0] == 'ORequestAuth' and o['code'] == 0:
-            sent_wf = [r[1][1] for r in o['recs'] if r[0] == 13]
-            op = ('ORequestAuth', bool(sent_wf and sent_wf[0]), op[2])
         self.ops.append((a, op))
         self.obs.append(o)
         code = o['code']
@@ -126,7 +123,7 @@ class Hist(object):
                 self.hb_exact = False
         if k == 'ORequestAuth' and code == 0:
             self.requests += 1
-            if not op[2]:
+            if not op[1]:
                 self.tags.add('pha-empty-compress-list')
         if k == 'OSetRecSize':
             self.min_rs = min(self.min_rs, op[1])
